@@ -73,8 +73,37 @@ def depth(node):
     return d
 
 
+# exception classes a typed handler may name: for these, "the handler catches exactly the exceptions of that name" is what
+# Python does with the exceptions MiniPy raises itself (none of them is a subclass of another one in this list); "Exception" /
+# "BaseException" catch everything (Interp.exc_matches).  A class raised by name in the source that SUBCLASSES one of these
+# (user-defined, UnicodeError < ValueError, ...) is outside what the name-based semantics knows.
+HANDLER_CLASSES = {"ValueError", "KeyError", "IndexError", "TypeError", "ZeroDivisionError", "AttributeError",
+                   "AssertionError", "Exception", "BaseException"}
+
+
+def own_continue(body):
+    """does the statement list contain a `continue` that belongs to the loop whose body it is (not to an inner loop) ?"""
+    for s in body:
+        if isinstance(s, ast.Continue):
+            return True
+        if isinstance(s, (ast.For, ast.While, ast.AsyncFor, ast.FunctionDef, ast.AsyncFunctionDef, ast.ClassDef)):
+            if isinstance(s, (ast.For, ast.While, ast.AsyncFor)) and own_continue(s.orelse):
+                return True
+            continue
+        for field in ("body", "orelse", "finalbody"):
+            if own_continue(getattr(s, field, []) or []):
+                return True
+        for h in getattr(s, "handlers", []) or []:
+            if own_continue(h.body):
+                return True
+    return False
+
+
 class FunctionTranslator:
-    def __init__(self, fn, where):
+    def __init__(self, fn, where, scope=None):
+        """scope: the statements that are going to be translated when only a marked block of the function is (the scan for
+        constructs without a counterpart then looks at these statements only; names and aliasing are still those of the
+        whole function)"""
         self.fn = fn
         self.where = where
         a = fn.args
@@ -86,14 +115,17 @@ class FunctionTranslator:
         for n in ast.walk(fn):
             if isinstance(n, ast.Name) and isinstance(n.ctx, (ast.Store, ast.Del)):
                 self.locals.add(n.id)
-            if isinstance(n, (ast.FunctionDef, ast.AsyncFunctionDef, ast.ClassDef)) and n is not fn:
-                raise Unsupported(f"{where}: nested function / class at line {n.lineno}")
-            if isinstance(n, (ast.While, ast.With, ast.AsyncWith, ast.AsyncFor, ast.Global, ast.Nonlocal, ast.Await,
-                              ast.ListComp, ast.SetComp, ast.DictComp, ast.GeneratorExp, ast.NamedExpr,
-                              ast.Import, ast.ImportFrom, ast.Match, ast.YieldFrom)):
-                raise Unsupported(f"{where}: {type(n).__name__} at line {getattr(n, 'lineno', '?')}")
+        for top in ([fn] if scope is None else scope):
+            for n in ast.walk(top):
+                if isinstance(n, (ast.FunctionDef, ast.AsyncFunctionDef, ast.ClassDef)) and n is not fn:
+                    raise Unsupported(f"{where}: nested function / class at line {n.lineno}")
+                if isinstance(n, (ast.While, ast.With, ast.AsyncWith, ast.AsyncFor, ast.Global, ast.Nonlocal, ast.Await,
+                                  ast.SetComp, ast.DictComp, ast.GeneratorExp, ast.NamedExpr,
+                                  ast.Import, ast.ImportFrom, ast.Match, ast.YieldFrom)):
+                    raise Unsupported(f"{where}: {type(n).__name__} at line {getattr(n, 'lineno', '?')}")
         self.check_aliasing()
         self.tmp = 0
+        self.loop_depth = 0      # number of enclosing SForC loops (a `continue` is only translated inside one)
 
     # -- aliasing restriction -----------------------------------------------------------
     def check_aliasing(self):
@@ -247,6 +279,21 @@ class FunctionTranslator:
             none = "(EConst VNone)"
             parts = [self.expr(x) if x is not None else none for x in (e.lower, e.upper, e.step)]
             return f"(ECall {cstr('slice')} {clist(parts)} [])"
+        if isinstance(e, ast.ListComp):
+            # [elt for x in it if c] -> EListComp elt x [] it c ; a tuple target `for a, b in it` -> x = a fresh temporary,
+            # names = [a; b] (unpacked by Interp.bind_item).  One generator, at most one `if` (node for node).
+            if len(e.generators) != 1 or e.generators[0].is_async or len(e.generators[0].ifs) > 1:
+                raise Unsupported(f"{self.where}: comprehension with several generators / conditions at line {e.lineno}")
+            g = e.generators[0]
+            if isinstance(g.target, ast.Name):
+                x, names = g.target.id, []
+            elif isinstance(g.target, ast.Tuple) and all(isinstance(el, ast.Name) for el in g.target.elts):
+                x, names = self.fresh(), [el.id for el in g.target.elts]
+            else:
+                raise Unsupported(f"{self.where}: comprehension target at line {e.lineno}")
+            cond = self.expr(g.ifs[0]) if g.ifs else "(EConst (VBool true))"
+            return (f"(EListComp {self.expr(e.elt)} {cstr(x)} {clist([cstr(n) for n in names])} "
+                    f"{self.expr(g.iter)} {cond})")
         if isinstance(e, ast.JoinedStr):
             parts = [self.expr(v.value) for v in e.values if isinstance(v, ast.FormattedValue)]
             return f"(ECall {cstr('$fstring')} {clist(parts)} [])"
@@ -413,6 +460,9 @@ class FunctionTranslator:
                     if all(self.pure_message(a) for a in v.args) and all(self.pure_message(k.value) for k in v.keywords):
                         return "SPass"
                     raise Unsupported(f"{self.where}: warning with an impure message at line {s.lineno}")
+                ch = self.setdefault_chain(v)
+                if ch is not None:
+                    return ch
                 return f"(SExpr {self.expr(v)})"
             raise Unsupported(f"{self.where}: expression statement {type(v).__name__} at line {s.lineno}")
         if isinstance(s, ast.Assign):
@@ -453,19 +503,55 @@ class FunctionTranslator:
         if isinstance(s, ast.Assert):
             return f"(SAssert {self.expr(s.test)})"
         if isinstance(s, ast.Try):
-            if s.orelse or s.finalbody or len(s.handlers) != 1:
-                raise Unsupported(f"{self.where}: try with else/finally/several handlers at line {s.lineno}")
-            h = s.handlers[0]
-            if h.type is not None and not (isinstance(h.type, ast.Name) and h.type.id in ("Exception", "BaseException")):
-                raise Unsupported(f"{self.where}: typed except at line {s.lineno}")
-            if h.name is not None:
+            if s.orelse or s.finalbody or not s.handlers:
+                raise Unsupported(f"{self.where}: try with else/finally at line {s.lineno}")
+            if any(h.name is not None for h in s.handlers):
                 raise Unsupported(f"{self.where}: except ... as name at line {s.lineno}")
-            return f"(STry {self.seq(s.body)}\n {self.seq(h.body)})"
+            if len(s.handlers) == 1 and (s.handlers[0].type is None or (
+                    isinstance(s.handlers[0].type, ast.Name) and s.handlers[0].type.id in ("Exception", "BaseException"))):
+                if self.loop_depth and own_continue(s.body):
+                    # STry catches whatever its body raises, the interpreter's "$continue" signal included
+                    raise Unsupported(f"{self.where}: continue inside a catch-all try at line {s.lineno}")
+                return f"(STry {self.seq(s.body)}\n {self.seq(s.handlers[0].body)})"
+            # typed handlers: try: body / except A: h1 / except (B, C): h2  ->  STryExc body [([A], h1); ([B; C], h2)]
+            hs = []
+            for h in s.handlers:
+                if h.type is None:
+                    raise Unsupported(f"{self.where}: bare except next to typed handlers at line {s.lineno}")
+                types = h.type.elts if isinstance(h.type, ast.Tuple) else [h.type]
+                if not all(isinstance(t, ast.Name) and t.id in HANDLER_CLASSES for t in types):
+                    raise Unsupported(f"{self.where}: handler for a class outside {sorted(HANDLER_CLASSES)} at line {s.lineno}")
+                hs.append(f"({clist([cstr(t.id) for t in types])}, {self.seq(h.body)})")
+            return f"(STryExc {self.seq(s.body)}\n {clist(hs)})"
+        if isinstance(s, ast.Continue):
+            if not self.loop_depth:
+                raise Unsupported(f"{self.where}: continue outside a translated for loop at line {s.lineno}")
+            return "SContinue"
         if isinstance(s, ast.Delete):
             if len(s.targets) != 1:
                 raise Unsupported(f"{self.where}: del with several targets at line {s.lineno}")
             return f"(SDel {self.target(s.targets[0])})"
         raise Unsupported(f"{self.where}: statement {type(s).__name__} at line {s.lineno}")
+
+    def setdefault_chain(self, v):
+        """the statement  d.setdefault(k, dflt).m(args)  with d a local name and k a local name or a constant: the object
+        the method is applied to IS the element d[k] (reference semantics), rendered - like the place alias of seq() with an
+        anonymous alias - as  d.setdefault(k, dflt); d[k].m(args)   (d and k are evaluated twice: names / constants)"""
+        f = v.func
+        if not (isinstance(f, ast.Attribute) and isinstance(f.value, ast.Call) and not v.keywords):
+            return None
+        inner = f.value
+        if not (isinstance(inner.func, ast.Attribute) and inner.func.attr == "setdefault"
+                and isinstance(inner.func.value, ast.Name) and inner.func.value.id in self.locals
+                and len(inner.args) == 2 and not inner.keywords
+                and (isinstance(inner.args[0], ast.Constant)
+                     or (isinstance(inner.args[0], ast.Name) and inner.args[0].id in self.locals))
+                and not any(isinstance(a, ast.Starred) for a in list(v.args) + list(inner.args))):
+            return None
+        d, k = self.expr(inner.func.value), self.expr(inner.args[0])
+        first = f"(SExpr (EMeth {d} {cstr('setdefault')} {clist([k, self.expr(inner.args[1])])} []))"
+        second = f"(SExpr (EMeth (ESub {d} {k}) {cstr(f.attr)} {clist([self.expr(a) for a in v.args])} []))"
+        return f"(SSeq {first}\n {second})"
 
     def fresh(self):
         self.tmp += 1
@@ -485,7 +571,21 @@ class FunctionTranslator:
         return acc
 
     def for_(self, s):
-        body = self.seq(s.body)
+        cont = own_continue(s.body)
+        if cont:
+            # a loop whose body contains a `continue` of its own: SForC (ends the iteration on SContinue), else SFor as before
+            self.loop_depth += 1
+            try:
+                body = self.seq(s.body)
+            finally:
+                self.loop_depth -= 1
+        else:
+            saved, self.loop_depth = self.loop_depth, 0     # a `continue` below belongs to an inner loop or is rejected
+            try:
+                body = self.seq(s.body)
+            finally:
+                self.loop_depth = saved
+        con = "SForC" if cont else "SFor"
         if isinstance(s.target, ast.Name):
             x = s.target.id
             if self.mutates(s.body, x):
@@ -496,9 +596,11 @@ class FunctionTranslator:
                 place = self.expr(s.iter)
                 load = f"(SAssign [TName {cstr(x)}] (ESub {place} (EName {cstr(i)})))"
                 back = f"(SAssign [TSub {place} (EName {cstr(i)})] (EName {cstr(x)}))"
+                if cont:
+                    raise Unsupported(f"{self.where}: continue in a loop that writes its variable back (line {s.lineno})")
                 return (f"(SFor {cstr(i)} (ECall {cstr('range')} [ECall {cstr('len')} [{place}] []] [])\n"
                         f" (SSeq {load} (SSeq {body} {back})))")
-            return f"(SFor {cstr(x)} {self.expr(s.iter)}\n {body})"
+            return f"({con} {cstr(x)} {self.expr(s.iter)}\n {body})"
         if isinstance(s.target, ast.Tuple) and all(isinstance(el, ast.Name) for el in s.target.elts):
             t = self.fresh()
             for el in s.target.elts:
@@ -509,7 +611,7 @@ class FunctionTranslator:
             acc = body
             for p in reversed(pre):
                 acc = f"(SSeq {p} {acc})"
-            return f"(SFor {cstr(t)} {self.expr(s.iter)}\n {acc})"
+            return f"({con} {cstr(t)} {self.expr(s.iter)}\n {acc})"
         raise Unsupported(f"{self.where}: for target at line {s.lineno}")
 
     def defaults(self):
@@ -594,13 +696,15 @@ def translate_unit(repo, unit):
             problems.append(f"{qual}: not found in {rel}")
             continue
         try:
-            tr = FunctionTranslator(fn, f"{rel}::{qual}")
-            if markers is None:
-                body = tr.body()
-            else:
+            stmts = None
+            if markers is not None:
                 stmts = slice_statements(fn, *markers)
                 if stmts is None:
                     raise Unsupported(f"{rel}::{qual}: block markers {markers!r} not found")
+            tr = FunctionTranslator(fn, f"{rel}::{qual}", scope=stmts)
+            if markers is None:
+                body = tr.body()
+            else:
                 body = tr.seq(stmts)
             if markers is None:
                 src, lo, hi = ast.get_source_segment(text, fn) or "", fn.lineno, fn.end_lineno
